@@ -7,6 +7,16 @@
 //   play   accepted bank mutants, accepted OPNI instruments and instruments written through opn2_setInstrument with
 //          every field at its extremes are played: note grid, pitch bend x bend range, vibrato, portamento, CC7/11/74,
 //          each followed by opn2_generate of one period; key-ons are observed through the register tap (H1).
+//
+// Oracle (literal reading of the statement):
+//   * WOPN_LoadBankFromMem: non-NULL file (every byte of both bank arrays readable, names NUL-terminated), or NULL with *error in
+//     WOPN_ERR_BAD_MAGIC..WOPN_ERR_NULL_POINTER; WOPN_LoadInstFromMem: a WOPN_ERR_* code; opn2_openBankData: 0, or -1 with error text.
+//   * no sanitizer report / signal / assert / exception; every single call <= 1 s CPU (key slow-call:<api>), case budget 20 s (hang:<api>).
+//   * one loader call requests no single block > 256 MiB and grows the live heap by no more than max(64 MiB, 1024 x input size).
+// Three-valued (statement silent, both outcomes accepted): *error untouched or WOPN_ERR_OK on acceptance; which of 0 / -1 the API
+//   returns for an empty or NULL block; whether the API loader and the WOPN loader agree (counter only); the version number an accepted
+//   file reports (counter only); return value of opn2_rt_noteOn; whether a note produces a key-on at all (blank instruments, full chip).
+// Out of scope (caller misuse): sizes larger than the real block, including negative `long` sizes.
 #include "vlib.hpp"
 
 static const char *harness_name() { return "c02_banks"; }
@@ -28,9 +38,11 @@ static void alloc_check(Case &c, const char *api, size_t input_size, long long l
 {
     unsigned long long maxreq = g_alloc.max_req;
     long long grown = g_alloc.peak - live_before;
+    // 64 KiB of input => 64 MiB; the few larger images (64 backed banks, ~570 KiB) get the same factor of 1024
+    long long peak_limit = std::max<long long>(64ll << 20, (long long)input_size * 1024);
     if(maxreq > (256ull << 20))
         c.violation(std::string("alloc:single-request-over-256MiB:") + api, vfmt("largest single allocation request %llu bytes (%.0f MiB) inside %s for an input of %zu bytes", maxreq, maxreq / 1048576.0, api, input_size));
-    else if(grown > (64ll << 20))
+    else if(grown > peak_limit)
         c.violation(std::string("alloc:peak-over-64MiB:") + api, vfmt("live heap grew by %lld bytes (%.0f MiB, largest request %llu) inside %s for an input of %zu bytes", grown, grown / 1048576.0, maxreq, api, input_size));
 }
 
@@ -114,7 +126,8 @@ struct BankSpec
     int content;             // CT_*
     bool name_nonul;
     int tail;                // bytes added (+) or removed (-) at the end
-    BankSpec(): magic_kind(1), version(2), decl_m(1), decl_p(1), have_m(1), have_p(1), flags(0), content(CT_DEFAULT), name_nonul(false), tail(0) {}
+    bool big;                // image may exceed 64 KiB (64 backed banks)
+    BankSpec(): magic_kind(1), version(2), decl_m(1), decl_p(1), have_m(1), have_p(1), flags(0), content(CT_DEFAULT), name_nonul(false), tail(0), big(false) {}
 };
 
 static Bytes build_wopn(Rng &r, const BankSpec &s)
@@ -149,7 +162,7 @@ static Bytes build_wopn(Rng &r, const BankSpec &s)
         }
     if(s.tail > 0) for(int i = 0; i < s.tail; i++) b.push_back(r.byte());
     if(s.tail < 0) b.resize(b.size() > (size_t)(-s.tail) ? b.size() + s.tail : 0);
-    if(b.size() > 65536) b.resize(65536);
+    if(b.size() > 65536 && !s.big) b.resize(65536);
     return b;
 }
 
@@ -222,9 +235,10 @@ static Bytes gen_bank_image(Rng &r, std::string &desc, bool want_accept)
     }
     else
     {
-        s.decl_m = r.chance(0.06) ? r.pick(bigcounts) : r.pick(counts); s.decl_p = r.chance(0.04) ? r.pick(bigcounts) : r.pick(counts);
-        if(r.chance(0.04)) { s.decl_m = r.below(65536); }
+        s.decl_m = r.chance(0.03) ? r.pick(bigcounts) : r.pick(counts); s.decl_p = r.chance(0.02) ? r.pick(bigcounts) : r.pick(counts);
+        if(r.chance(0.02)) { s.decl_m = r.below(65536); }
         unsigned room = 7;
+        if((s.decl_m == 64 || s.decl_p == 64) && r.chance(0.25)) { s.big = true; room = 130; }    // "64 banks with the data to back them"
         switch(r.below(5))
         {
         case 0: case 1: s.have_m = std::min(s.decl_m, room); s.have_p = std::min(s.decl_p, room - s.have_m); break;   // backed as far as 64 KiB allow
@@ -240,7 +254,7 @@ static Bytes gen_bank_image(Rng &r, std::string &desc, bool want_accept)
     s.content = (int)r.below(CT_COUNT);
     if(want_accept && s.content == CT_00) s.content = CT_EXTREME;    // all-zero = every instrument blank: nothing to play
     s.name_nonul = r.chance(0.3);
-    desc = vfmt("wopn magic=%s ver=%d decl=%u+%u have=%u+%u flags=%02x content=%s nonul=%d tail=%d", s.magic_kind ? "B2NK" : "BANK", s.version, s.decl_m, s.decl_p, s.have_m, s.have_p,
+    desc = vfmt("%swopn magic=%s ver=%d decl=%u+%u have=%u+%u flags=%02x content=%s nonul=%d tail=%d", s.big ? "big " : "", s.magic_kind ? "B2NK" : "BANK", s.version, s.decl_m, s.decl_p, s.have_m, s.have_p,
                 s.flags, CT_NAMES[s.content], (int)s.name_nonul, s.tail);
     return build_wopn(r, s);
 }
@@ -317,7 +331,7 @@ static Bytes gen_fuzz_image(Rng &r, std::string &desc, std::string &cls)
         for(int i = 0; i < n; i++) f.push_back(r.byte());
         desc = vfmt("%d random bytes", n);
     }
-    if(f.size() > 65536) f.resize(65536);
+    if(f.size() > 65536 && desc.compare(0, 4, "big ") != 0) f.resize(65536);
     return f;
 }
 
@@ -332,7 +346,7 @@ static void validate_wopn(Case &c, WOPNFile *f, const char *how)
 {
     if(f->banks_count_melodic == 0 || f->banks_count_percussion == 0 || !f->banks_melodic || !f->banks_percussive)
     { c.violation("oracle:accepted-bank-unusable", vfmt("%s: accepted WOPNFile has counts %u/%u, arrays %p/%p", how, f->banks_count_melodic, f->banks_count_percussion, (void *)f->banks_melodic, (void *)f->banks_percussive)); return; }
-    if(f->version > 2) c.violation("oracle:accepted-bank-version", vfmt("%s: accepted WOPNFile reports version %u", how, f->version));
+    if(f->version > 2) count("accepted_bank_reports_version_above_2");      // not a clause of the statement: recorded only
     uint64_t h = 0;
     WOPNBank *arr[2] = {f->banks_melodic, f->banks_percussive}; unsigned cnt[2] = {f->banks_count_melodic, f->banks_count_percussion};
     for(int s = 0; s < 2; s++)
@@ -387,7 +401,7 @@ static int load_opni(Case &c, const Bytes &img, OPNIFile *out)
     if(rc < WOPN_ERR_OK || rc > WOPN_ERR_NULL_POINTER) c.violation("oracle:inst-undefined-return", vfmt("WOPN_LoadInstFromMem returned %d", rc));
     if(rc == WOPN_ERR_OK)
     {
-        if(o->version > 2) c.violation("oracle:accepted-inst-version", vfmt("accepted OPNI reports version %u", o->version));
+        if(o->version > 2) count("accepted_inst_reports_version_above_2");  // not a clause of the statement: recorded only
         if(memchr(o->inst.inst_name, 0, 32) == NULL) c.violation("oracle:accepted-instrument-name-unterminated", "OPNI instrument name has no NUL");
     }
     if(out) *out = *o;
@@ -413,34 +427,40 @@ static int load_api(Case &c, OPN2_MIDIPlayer *d, const Bytes &img, std::string *
 // ---------------------------------------------------------------------------------------------
 // playing
 // ---------------------------------------------------------------------------------------------
-static std::string off_label(int v)
-{
-    for(size_t i = 0; i < sizeof(NOTE_OFFSETS) / sizeof(NOTE_OFFSETS[0]); i++) if(NOTE_OFFSETS[i] == v) return vfmt("%d", v);
-    int a = v < 0 ? -v : v, b = 0; while((1 << (b + 1)) <= a) b++;
-    return vfmt("%s2^%d", v < 0 ? "-" : "+", b);
-}
-static std::string byte_label(int v) { return (v == 0 || v == 0x7F || v == 0x80 || v == 0xFF) ? vfmt("%02X", v) : vfmt("%Xx", v >> 4); }
+static bool in_list(int v) { for(size_t i = 0; i < sizeof(NOTE_OFFSETS) / sizeof(NOTE_OFFSETS[0]); i++) if(NOTE_OFFSETS[i] == v) return true; return false; }
+static bool is_ext(int v) { return v == 0 || v == 0x7F || v == 0x80 || v == 0xFF; }
 
-// which fields of an instrument differ from the audible base instrument, and how (bucketed)
-template<class INS> static std::string ins_label(const INS &in)
+// The extreme features of an instrument, one string per field that sits at (or beyond) an extreme; an instrument without any is "plain".
+// Coverage items are (feature, channel kind + key [+ velocity], controller state): one per feature, so combinations do not multiply.
+template<class INS> static std::vector<std::string> ins_features(const INS &in)
 {
-    std::string l;
-    if(in.note_offset != 0) l += "noff=" + off_label(in.note_offset) + ",";
-    if(in.percussion_key_number != 0) l += vfmt("dk=%s,", (in.percussion_key_number >= 128) ? (in.percussion_key_number == 255 ? "255" : in.percussion_key_number == 128 ? "128" : "hi") : (in.percussion_key_number == 127 ? "127" : in.percussion_key_number == 1 ? "1" : "lo"));
-    if(in.midi_velocity_offset != 0) l += vfmt("vo=%s,", in.midi_velocity_offset == -128 ? "-128" : in.midi_velocity_offset == 127 ? "127" : in.midi_velocity_offset < 0 ? "neg" : "pos");
-    if(in.inst_flags != 0) l += vfmt("fl=%s%s,", byte_label(in.inst_flags & ~3).c_str(), (in.inst_flags & 2) ? "B" : (in.inst_flags & 1) ? "P" : "");
-    if(in.fbalg > 0x3F) l += "fbalg=" + byte_label(in.fbalg) + ",";
-    if(in.lfosens != 0) l += "lfo=" + byte_label(in.lfosens) + ",";
+    std::vector<std::string> f;
+    int no = in.note_offset;
+    if(no != 0) f.push_back(in_list(no) ? vfmt("noff=%d", no) : no < -12288 ? "noff=<-12288" : no < -127 ? "noff=neg" : no < 0 ? "noff=neg-small" : no < 128 ? "noff=pos-small" : no <= 12288 ? "noff=pos" : "noff=>12288");
+    int dk = in.percussion_key_number;
+    if(dk != 0) f.push_back(dk == 1 ? "dk=1" : dk < 127 ? "dk=lo" : dk == 127 ? "dk=127" : dk == 128 ? "dk=128" : dk < 255 ? "dk=hi" : "dk=255");
+    int vo = in.midi_velocity_offset;
+    if(vo != 0) f.push_back(vo == -128 ? "vo=-128" : vo == 127 ? "vo=127" : vo < 0 ? "vo=neg" : "vo=pos");
+    int fl = in.inst_flags;
+    if(fl != 0) f.push_back(std::string("fl=") + ((fl & ~3) ? "x" : "") + ((fl & 1) ? "P" : "") + ((fl & 2) ? "B" : ""));
+    if(in.fbalg > 0x3F) f.push_back(is_ext(in.fbalg) ? vfmt("fbalg=%02X", in.fbalg) : "fbalg=hi");
+    if(in.lfosens > 0x3F) f.push_back(is_ext(in.lfosens) ? vfmt("lfo=%02X", in.lfosens) : "lfo=hi");
     int ext[4] = {0, 0, 0, 0}, other = 0;
     const uint8_t *ob = (const uint8_t *)&in.operators[0];
     for(int i = 0; i < 28; i++) { int v = ob[i]; if(v == 0) ext[0]++; else if(v == 0x7F) ext[1]++; else if(v == 0x80) ext[2]++; else if(v == 0xFF) ext[3]++; else other++; }
-    if(other == 0) { if(ext[0] == 28) l += "ops=00,"; else if(ext[1] == 28) l += "ops=7F,"; else if(ext[2] == 28) l += "ops=80,"; else if(ext[3] == 28) l += "ops=FF,"; else l += "ops=mixext,"; }
-    else if(other < 20) l += "ops=partext,";
-    if(in.delay_on_ms == 0 || in.delay_on_ms == 1 || in.delay_on_ms == 40000 || in.delay_on_ms == 65535) l += vfmt("don=%u,", in.delay_on_ms);
-    if(in.delay_off_ms == 0 || in.delay_off_ms == 1 || in.delay_off_ms == 40000 || in.delay_off_ms == 65535) l += vfmt("doff=%u,", in.delay_off_ms);
-    if(l.empty()) l = "plain";
-    return l;
+    if(other == 0) f.push_back(ext[0] == 28 ? "ops=00" : ext[1] == 28 ? "ops=7F" : ext[2] == 28 ? "ops=80" : ext[3] == 28 ? "ops=FF" : "ops=mixed-extremes");
+    else if(ext[0] + ext[1] + ext[2] + ext[3] >= 4)
+    {   // a register row (or more) at an extreme
+        for(int row = 0; row < 7; row++) { int v = ob[row]; if(is_ext(v) && ob[7 + row] == v && ob[14 + row] == v && ob[21 + row] == v) { f.push_back(vfmt("oprow%d=%02X", row, v)); break; } }
+    }
+    if(in.delay_on_ms == 0 || in.delay_on_ms == 1 || in.delay_on_ms == 40000 || in.delay_on_ms == 65535) f.push_back(vfmt("don=%u", in.delay_on_ms));
+    if(in.delay_off_ms == 0 || in.delay_off_ms == 1 || in.delay_off_ms == 40000 || in.delay_off_ms == 65535) f.push_back(vfmt("doff=%u", in.delay_off_ms));
+    if(f.empty()) f.push_back("plain");
+    return f;
 }
+static std::string join(const std::vector<std::string> &f) { std::string l; for(size_t i = 0; i < f.size(); i++) l += (i ? "," : "") + f[i]; return l; }
+typedef std::vector<std::string> Feats;
+static Feats one_feat(const std::string &s) { return Feats(1, s); }
 
 struct Target
 {
@@ -449,10 +469,11 @@ struct Target
     int patch;
     int perc_prog;              // program on channel 9 (selects the percussion bank), -1: none
     int exp_noff, exp_fbalg;    // note offset / fbalg of the melodic instrument (harness self-check of the targeting)
-    std::string mel_label;
-    std::string perc_label[128];
+    Feats mel_feats;            // extreme features of the melodic instrument played
+    Feats perc_feats[128];      // ... of the percussion instrument under each key used
+    std::string prefix;         // "", "api:", "opni:" (how the instrument got into the bank)
     std::vector<int> keys;      // keys of the note grid
-    Target(): mel_ch(0), mel_msb(-1), mel_lsb(-1), patch(0), perc_prog(-1), exp_noff(1 << 20), exp_fbalg(-1) { static const int k[] = {0, 1, 60, 126, 127}; keys.assign(k, k + 5); }
+    Target(): mel_ch(0), mel_msb(-1), mel_lsb(-1), patch(0), perc_prog(-1), exp_noff(1 << 20), exp_fbalg(-1) { mel_feats = one_feat("plain"); for(int k = 0; k < 128; k++) perc_feats[k] = one_feat("plain"); static const int k[] = {0, 1, 60, 126, 127}; keys.assign(k, k + 5); }
 };
 
 struct Player
@@ -469,12 +490,20 @@ struct Player
         if(got != frames * 2) c.violation("oracle:generate-return", vfmt("opn2_generate(%d) returned %d", frames * 2, got));
         count("frames_generated", frames);
     }
-    const std::string &label(int ch, int key) const { return ch == 9 ? t->perc_label[key & 127] : t->mel_label; }
+    const Feats &feats(int ch, int key) const { return ch == 9 ? t->perc_feats[key & 127] : t->mel_feats; }
+    // keycls = "k<key>[/v<vel>]" or "kheld"; a step counts for the coverage when it produced at least one key-on write (register 0x28, high nibble set)
     void mark(uint64_t k0, int ch, const std::string &keycls, const std::string &ctrl)
     {
         uint64_t k1 = keyons();
         steps++;
-        if(k1 > k0) { keyon_steps++; keyons_total += k1 - k0; cover(label(ch, atoi(keycls.c_str() + 1)) + "|" + (ch == 9 ? "perc" : "mel") + keycls + "|" + ctrl); }
+        if(k1 <= k0) return;
+        keyon_steps++; keyons_total += k1 - k0;
+        const Feats &f = feats(ch, atoi(keycls.c_str() + 1));
+        for(size_t i = 0; i < f.size(); i++)
+        {
+            cover(f[i] + "|" + (ch == 9 ? "perc-" : "mel-") + keycls + "|" + ctrl);
+            cover("source|" + (t->prefix.empty() ? std::string("image:") : t->prefix) + f[i]);     // how an instrument with this feature got into the bank
+        }
     }
     void cc(int ch, int type, int val) { TAPI("opn2_rt_controllerChange", opn2_rt_controllerChange(d, (uint8_t)ch, (uint8_t)type, (uint8_t)val)); }
     void on(int ch, int key, int vel) { int rc = 0; TAPI("opn2_rt_noteOn", rc = opn2_rt_noteOn(d, (uint8_t)ch, (uint8_t)key, (uint8_t)vel)); (void)rc; }
@@ -562,7 +591,7 @@ struct Player
             std::vector<OpnTimbre> &cache = VA::insCache(P(d)->m_synth.get()); bool found = false;
             for(size_t i = 0; i < cache.size(); i++) if(cache[i].noteOffset == tg.exp_noff && cache[i].fbalg == tg.exp_fbalg) found = true;
             count(found ? "melodic_target_confirmed_in_chip_cache" : "melodic_target_NOT_in_chip_cache");
-            if(!found && g_w.optnum("trace", 0)) fprintf(stderr, "[trace] case %ld: target ch=%d msb=%d lsb=%d patch=%d noff=%d fbalg=%d (%s) not in chip cache\n", c.k, tg.mel_ch, tg.mel_msb, tg.mel_lsb, tg.patch, tg.exp_noff, tg.exp_fbalg, tg.mel_label.c_str());
+            if(!found && g_w.optnum("trace", 0)) fprintf(stderr, "[trace] case %ld: target ch=%d msb=%d lsb=%d patch=%d noff=%d fbalg=%d (%s) not in chip cache\n", c.k, tg.mel_ch, tg.mel_msb, tg.mel_lsb, tg.patch, tg.exp_noff, tg.exp_fbalg, join(tg.mel_feats).c_str());
         }
         off(tg.mel_ch, 64);
     }
@@ -639,16 +668,16 @@ static void target_from_wopn(Rng &r, const WOPNFile *f, Target &t, int want_mel_
     std::vector<int> diff;
     for(int k = 0; k < 128; k++) if(def && memcmp(&f->banks_melodic[bi].ins[k].note_offset, &def->banks_melodic[0].ins[k].note_offset, sizeof(WOPNInstrument) - 32) != 0 && !(f->banks_melodic[bi].ins[k].inst_flags & WOPN_Ins_IsBlank)) diff.push_back(k);
     t.patch = want_mel_idx >= 0 ? want_mel_idx : !diff.empty() ? r.pick(diff) : (int)r.below(128);
-    t.mel_label = ins_label(f->banks_melodic[bi].ins[t.patch]);
+    t.mel_feats = ins_features(f->banks_melodic[bi].ins[t.patch]);
     t.exp_noff = f->banks_melodic[bi].ins[t.patch].note_offset; t.exp_fbalg = f->banks_melodic[bi].ins[t.patch].fbalg;
     // percussion bank: selected by the program on channel 9 = bank number (msb must be 0)
     unsigned pj = 0; reach.clear();
     for(unsigned i = 0; i < f->banks_count_percussion; i++) if(f->banks_percussive[i].bank_midi_msb == 0 && f->banks_percussive[i].bank_midi_lsb < 128) reach.push_back(i);
     if(!reach.empty()) { pj = r.pick(reach); t.perc_prog = f->banks_percussive[pj].bank_midi_lsb; }
     if(want_perc_idx >= 0 && std::find(t.keys.begin(), t.keys.end(), want_perc_idx) == t.keys.end()) t.keys.push_back(want_perc_idx);
-    for(int k = 0; k < 128; k++) t.perc_label[k] = "";
-    for(size_t i = 0; i < t.keys.size(); i++) t.perc_label[t.keys[i]] = ins_label(f->banks_percussive[pj].ins[t.keys[i]]);
-    t.perc_label[60] = ins_label(f->banks_percussive[pj].ins[60]); t.perc_label[61] = ins_label(f->banks_percussive[pj].ins[61]);
+    for(int k = 0; k < 128; k++) t.perc_feats[k] = one_feat("other-key");
+    for(size_t i = 0; i < t.keys.size(); i++) t.perc_feats[t.keys[i]] = ins_features(f->banks_percussive[pj].ins[t.keys[i]]);
+    t.perc_feats[60] = ins_features(f->banks_percussive[pj].ins[60]); t.perc_feats[61] = ins_features(f->banks_percussive[pj].ins[61]);
 }
 
 // ---------------------------------------------------------------------------------------------
@@ -710,6 +739,7 @@ static void dump_input(Case &c, const Bytes &img)
 static void load_everything(Case &c, Rng &r, const Bytes &img, const std::string &cls, const std::string &desc, int mut_mel_idx, int mut_perc_idx, bool play)
 {
     int werr = -2;
+    if(img.size() > 65536) count("images_over_64KiB");
     WOPNFile *wf = load_wopn(c, r, img, &werr);
     OPNIFile oi; int irc = load_opni(c, img, &oi);
     std::string cfg, etext;
@@ -718,8 +748,25 @@ static void load_everything(Case &c, Rng &r, const Bytes &img, const std::string
     if(d)
     {
         // half of the loads replace a bank that is already there, half go into a fresh instance
-        if(r.chance(0.5)) { int rc0 = load_api(c, d, default_bank(), NULL); if(rc0 != 0) c.violation("oracle:default-bank-rejected", "generated default bank was rejected"); }
+        bool held = false;
+        if(r.chance(0.5))
+        {
+            int rc0 = load_api(c, d, default_bank(), NULL); if(rc0 != 0) c.violation("oracle:default-bank-rejected", "generated default bank was rejected");
+            if(r.chance(0.3))
+            {   // notes sounding while the image is loaded; they are released afterwards whatever the outcome
+                held = true; int rc = 0;
+                TAPI("opn2_rt_noteOn", rc = opn2_rt_noteOn(d, 0, 60, 100)); TAPI("opn2_rt_noteOn", rc = opn2_rt_noteOn(d, 9, 40, 100)); (void)rc;
+                TAPI("opn2_rt_controllerChange", opn2_rt_controllerChange(d, 0, 64, 127)); TAPI("opn2_rt_noteOn", rc = opn2_rt_noteOn(d, 0, 64, 100)); TAPI("opn2_rt_noteOff", opn2_rt_noteOff(d, 0, 64));
+            }
+        }
         arc = load_api(c, d, img, &etext);
+        if(held)
+        {
+            short pcm[64];
+            TAPI("opn2_rt_noteOff", opn2_rt_noteOff(d, 0, 60)); TAPI("opn2_rt_noteOff", opn2_rt_noteOff(d, 9, 40)); TAPI("opn2_rt_controllerChange", opn2_rt_controllerChange(d, 0, 64, 0));
+            int got = 0; TAPI("opn2_generate", got = opn2_generate(d, 64, pcm)); (void)got;
+            count("loads_with_notes_held");
+        }
         if((arc == 0) != (wf != NULL)) count("api_and_wopn_loader_disagree");
         if(arc == 0 && wf && play)
         {
@@ -744,14 +791,14 @@ static void load_everything(Case &c, Rng &r, const Bytes &img, const std::string
             if(rc == 0 && rc2 == 0)
             {
                 Player p(c, d); Target t; t.patch = 5; t.perc_prog = 0; t.keys.clear(); t.keys.push_back(60); t.keys.push_back(127);
-                t.mel_label = "opni:" + ins_label(ai); t.perc_label[60] = t.mel_label; t.perc_label[127] = "plain";
+                t.prefix = "opni:"; t.mel_feats = ins_features(ai); for(int k = 0; k < 128; k++) t.perc_feats[k] = one_feat("default-bank"); t.perc_feats[60] = t.mel_feats;
                 p.play_light(t);
                 count("light_plays_opni"); count("keyon_writes_seen", (long long)p.keyons_total);
             }
         }
         else if(arc != 0 && play && r.chance(0.3))
         {   // a rejected image must leave the instance usable (with the previous bank or with none)
-            Player p(c, d); Target t; t.patch = (int)r.below(128); t.mel_label = "after-reject"; for(int k = 0; k < 128; k++) t.perc_label[k] = "after-reject";
+            Player p(c, d); Target t; t.patch = (int)r.below(128); t.mel_feats = one_feat("after-reject"); for(int k = 0; k < 128; k++) t.perc_feats[k] = one_feat("after-reject");
             p.play_light(t);
             count("light_plays_after_reject"); count("keyon_writes_seen", (long long)p.keyons_total);
         }
@@ -948,11 +995,12 @@ static void stage_play(Case &c)
         if(fresh && r.chance(0.5)) { pid.lsb = (uint8_t)r.pick((const int[]){1, 64, 127}); }
         TAPI("opn2_getBank", rc2 = opn2_getBank(d, &pid, OPNMIDI_Bank_Create, &pk));
         t.perc_prog = pid.lsb;
-        std::string lab = (kind == "opni-image" ? "opni:" : "api:") + ins_label(*ai);
-        t.mel_label = lab; t.exp_noff = ai->note_offset; t.exp_fbalg = ai->fbalg;
+        t.prefix = kind == "opni-image" ? "opni:" : "api:";
+        t.mel_feats = ins_features(*ai); t.exp_noff = ai->note_offset; t.exp_fbalg = ai->fbalg;
+        for(int k = 0; k < 128; k++) t.perc_feats[k] = one_feat("unwritten-key");
         for(int k = 0; k < 128 && rc2 == 0; k++)
         {   // percussion: instrument index = key; the same extreme instrument under every key of the grid (and 61 for the glide pair)
-            if(k == 0 || k == 1 || k == 60 || k == 61 || k == 126 || k == 127) { TAPI("opn2_setInstrument", rc2 = opn2_setInstrument(d, &pk, (unsigned)k, ai)); t.perc_label[k] = lab; }
+            if(k == 0 || k == 1 || k == 60 || k == 61 || k == 126 || k == 127) { TAPI("opn2_setInstrument", rc2 = opn2_setInstrument(d, &pk, (unsigned)k, ai)); t.perc_feats[k] = t.mel_feats; }
         }
         if(rc != 0 || rc2 != 0) { c.inconclusive = true; ok = false; count("setInstrument_failed"); }
         else
@@ -975,9 +1023,9 @@ static void stage_play(Case &c)
         count("register_writes_seen", (long long)p.tap.writes);
         c.nontrivial = p.keyon_steps > 0;
         if(!c.nontrivial) count("plays_without_keyon");
-        c.sig = "play|" + kind + "|" + t.mel_label + "|" + t.perc_label[60];
-        c.sample(std::string("{\"kind\":") + jstr(kind) + ",\"input\":" + jstr(desc) + ",\"instance\":" + jstr(cfg) + ",\"melodic\":" + jstr(vfmt("ch=%d msb=%d lsb=%d patch=%d ", t.mel_ch, t.mel_msb, t.mel_lsb, t.patch) + t.mel_label) +
-                 ",\"percussion\":" + jstr(vfmt("prog=%d ", t.perc_prog) + t.perc_label[60]) + ",\"steps\":" + vfmt("%ld", p.steps) + ",\"steps_with_keyon\":" + vfmt("%ld", p.keyon_steps) + "}");
+        c.sig = "play|" + kind + "|" + t.prefix + join(t.mel_feats) + "|" + join(t.perc_feats[60]);
+        c.sample(std::string("{\"kind\":") + jstr(kind) + ",\"input\":" + jstr(desc) + ",\"instance\":" + jstr(cfg) + ",\"melodic\":" + jstr(vfmt("ch=%d msb=%d lsb=%d patch=%d ", t.mel_ch, t.mel_msb, t.mel_lsb, t.patch) + t.prefix + join(t.mel_feats)) +
+                 ",\"percussion\":" + jstr(vfmt("prog=%d key60: ", t.perc_prog) + join(t.perc_feats[60])) + ",\"steps\":" + vfmt("%ld", p.steps) + ",\"steps_with_keyon\":" + vfmt("%ld", p.keyon_steps) + "}");
     }
     TAPI("opn2_close", opn2_close(d));
     free_wopn(wf);
